@@ -137,6 +137,29 @@ fn main() {
             }
             println!("{}", serde_json::to_string(&v).unwrap());
         }
+        "gram-types" => {
+            // which token types do N construct-grammar programs contain? (coverage measurement, DESIGN 9.6)
+            let n: usize = a.get(2).and_then(|s| s.parse().ok()).unwrap_or(20000);
+            let mut m = sasverif::su::Mix::new(sasverif::su::mix2(seed, 0x22));
+            let mut seen: std::collections::BTreeMap<String, u64> = Default::default();
+            for _ in 0..n {
+                let len = 8 + m.below(200);
+                let b = m.bytes(len);
+                let t = props::gram_text(&b);
+                if let sasverif::api::Lexed::Ok(d) = sasverif::api::lex(sasverif::api::Variant::Rel, &t) {
+                    for tk in &d.toks {
+                        *seen.entry(format!("{:?}", tk.t)).or_default() += 1;
+                    }
+                }
+            }
+            let all: Vec<String> = sasverif::api::all_token_types().iter().map(|t| format!("{t:?}")).collect();
+            let missing: Vec<&String> = all.iter().filter(|t| !seen.contains_key(*t)).collect();
+            println!("{} of {} token types seen in {n} programs", seen.len(), all.len());
+            println!("never seen: {missing:?}");
+            let mut rare: Vec<(&String, &u64)> = seen.iter().filter(|(_, c)| **c < 20).collect();
+            rare.sort_by_key(|(_, c)| **c);
+            println!("seen fewer than 20 times: {rare:?}");
+        }
         "gen-text" => {
             let n: usize = a.get(2).and_then(|s| s.parse().ok()).unwrap_or(100);
             let mut m = sasverif::su::Mix::new(sasverif::su::mix2(seed, 0x21));
